@@ -431,6 +431,25 @@ func eofexitC04(c *Ctx, tt *tokenTable) {
 						}
 					}
 				}
+				dyn := false
+				for _, lb := range f.Blocks {
+					if !body[lb.Index] || len(lb.Instrs) == 0 {
+						continue
+					}
+					if ifi, ok := lb.Instrs[len(lb.Instrs)-1].(*ssa.If); ok {
+						cond := ifi.Cond
+						if u, ok := cond.(*ssa.UnOp); ok && u.Op == token.NOT {
+							cond = u.X
+						}
+						if call, ok := cond.(*ssa.Call); ok && call.Call.StaticCallee() == nil {
+							dyn = true
+						}
+					}
+				}
+				if dyn {
+					c.Unk("C04.eofexit", key, e.from.Instrs[len(e.from.Instrs)-1].Pos(), "the loop is left on the answer of a function value (a predicate passed in): what it answers for the end marker is decided at its call sites, not here")
+					continue
+				}
 				c.Bad("C04.eofexit", key, e.from.Instrs[len(e.from.Instrs)-1].Pos(), "with every read reporting end of input the loop can still take its back edge: it spins forever on truncated input")
 			} else {
 				c.OK("C04.eofexit", key, e.to.Instrs[0].Pos(), "back edge is dead at end of input")
